@@ -371,10 +371,10 @@ class BstrField(CborField):
             return None
 
     def m2i(self, pkt, x):
-        try:
-            return bytes(x)
-        except TypeError:
+        # bytes(int) would silently produce that many zero octets
+        if not isinstance(x, (bytes, bytearray, memoryview)):
             return None
+        return bytes(x)
 
     def i2repr(self, pkt, x):
         return encode_diagnostic(x)
